@@ -16,10 +16,15 @@ CLAIMED = {
              "checked reads/writes and fuel) return ok, never touch a byte outside `s ++ [0]`, produce at most |s| bytes and "
              "terminate the result; the query-string parser is total. Correspondence: exhaustive strings over each "
              "format's significant alphabet + random inputs in exactly sized heap buffers under ASan/UBSan. "
-             "The INI/Apache parser half is pending (not yet modelled) and is named as such in the evidence.",
+             "Parser half (Props/C17Parsers.lean): the raw-buffer Apache-style tokenizer returns for every line with no "
+             "out-of-bounds access, the Apache-style parse and the INI-style parse (incl. bounded ${} expansion of self- "
+             "and mutually referential values) return a result or an error for EVERY input; correspondence: exhaustive "
+             "short strings over each grammar's significant bytes, grammar-aware mutated documents, lines around "
+             "MAX_LINESIZE, deep nesting, under ASan with a per-call watchdog.",
         note="trusted: Lean kernel, hand transcription of the decoder loops (validated on explored inputs), gcc/ASan; "
-             "wall-clock termination of compiled code is observed by timeouts, the theorem is about fuel; parser half "
-             "(qconfig/qaconf) not yet covered by theorems.",
+             "wall-clock termination of compiled code is observed by timeouts, the theorem is about fuel; @INCLUDE / "
+             "qconfig_parse_file, popen of ${!cmd} (stubbed on both sides) are out of model. Eight defects of the pinned "
+             "tree repaired first.",
         technique="Lean 4 proof (loop invariants on an in-place buffer, induction on fuel) + differential correspondence under ASan",
         design="7/C17"),
 }
@@ -138,4 +143,25 @@ CLAIMED.update({
              "not yet against Lean failure-atomicity models. Five defects of the pinned tree repaired first.",
         technique="Lean 4 proof (failure atomicity via the generalised insertion invariant) + fault-enumeration correspondence",
         design="7/C15"),
+})
+
+CLAIMED.update({
+    "C20": dict(
+        text="Lean 4 theorems over models of qconfig_parse_str and qaconf's _parse_inline (raw-buffer tokenizer, option "
+             "lookup, scope/count/type checks, bool rewrite, callbacks): ac_tokenize (tokenize . render = args for every "
+             "argument list, quoting style, escape choice and blank layout), ac_number and ac_bool (the documented "
+             "classifiers, every spelling in any case, rewrite to 1/0), ini_roundtrip (documents with sections, comments, "
+             "${name}/${%ENV}/${!cmd} references parse to exactly the expected entries in order, with section prefixes "
+             "and marker entries, references resolved to the value in effect), ac_accept_iff_partial (FLAT documents: "
+             "for every option table and both flags the callback stream and the count / line of first offence equal the "
+             "declarative reading of the documentation); constants regenerated from the headers. Correspondence: "
+             "grammar-generated conforming and offending documents x option tables (take counts, types, scopes, flags), "
+             "nesting, all bool spellings, number forms; reference oracle computed from the grammar value.",
+        note="PARTIAL: ac_accept_iff is proved for flat documents only (the induction over nested sections, close "
+             "callbacks and refusing callbacks is missing; those are covered by the correspondence and the oracle); "
+             "ini_roundtrip excludes nested references and literal $ in values. trusted: Lean kernel, hand transcription "
+             "(validated on explored documents), translator/confconsts.py, gcc/ASan; C locale. Four defects of the pinned "
+             "tree repaired first.",
+        technique="Lean 4 proof (simulation of the raw tokenizer, classifier equalities, document induction) + K-gen constants + grammar-based differential correspondence",
+        design="7/C20"),
 })
